@@ -31,8 +31,12 @@ def build(case, i):
     twin = {"op": m, "opts": opts}
     if m.endswith("_vec"):
         twin["labels"] = labels
-    if case["taken"]:
-        calls.append(dict(twin, **{"as": "t0"}))
+    if case["taken"] != "no":
+        t0 = dict(twin, **{"as": "t0"})
+        if case["taken"] == "otherkind":
+            other = "counter" if "gauge" in m else "int_gauge"
+            t0 = {"op": other, "as": "t0", "opts": {"name": name, "help": help_, "const_map": const}}
+        calls.append(t0)
         calls.append({"op": "register", "reg": target, "obj": "t0"} if target else {"op": "default_register", "obj": "t0"})
     mc = {"op": "macro", "macro": m, "form": case["form"], "tc": case["tc"], "registry": target, "name": name, "help": help_, "as": "h", "labels": labels}
     if case["optsvia"] != "-":
